@@ -43,23 +43,23 @@ theorem whole_number_hook :
     Gen.Config.wholeNumberKinds = ["Int", "Int8", "Int16", "Int32", "Int64", "Uint", "Uint8", "Uint16", "Uint32", "Uint64"] ∧
     Gen.Config.wholeNumberRefuses = "math.IsInf(v, 0) || v != math.Trunc(v)" := ⟨rfl, rfl, rfl⟩
 
-/-- `NumberRangeHook` as `fitsKind` / `decodeScalarWith` have it (x3 the number, x4 the verdict, x5 / x6 the width of the
-target from `kindBits`): an integer target of width b holds an integer source iff shifting it right by b-1 leaves 0 or
--1 (−2^(b−1) ≤ n < 2^(b−1)), an unsigned source iff that shift leaves 0, a float source iff −2^(b−1) ≤ x < 2^(b−1); an
-unsigned target of width b holds a non-negative integer iff the shift by b leaves 0 (64 bits: always), a float iff
-x < 2^b (a negative source is passed on: the kind switch reports it); a float32 holds a finite float iff its magnitude
-is at most math.MaxFloat32; the hook refuses exactly when the verdict is false; the widths are 8, 16, 32, 64 and
-strconv.IntSize for Int / Uint -/
+/-- `NumberRangeHook` as `fitsKind` / `decodeScalarWith` have it (x1 the target kind, x2 the number; locals replaced by
+what they are bound to, so renamed or reordered declarations do not disturb the pin): an integer target of width b holds an
+integer source iff shifting it right by b-1 leaves 0 or -1 (−2^(b−1) ≤ n < 2^(b−1)), an unsigned source iff that shift
+leaves 0, a float source iff −2^(b−1) ≤ x < 2^(b−1); an unsigned target of width b holds a non-negative integer iff the
+shift by b leaves 0 (64 bits: always), a float iff x < 2^b (a negative source is passed on: the kind switch reports it); a
+float32 holds a finite float iff its magnitude is at most math.MaxFloat32; the hook refuses exactly when the verdict is
+false; the widths are 8, 16, 32, 64 and strconv.IntSize for Int / Uint -/
 theorem number_range_hook :
     Gen.Config.numberRangeTable = [
-      ("Float32", "Float32,Float64", "x4 = math.IsInf(x3.Float(), 0) || !(math.Abs(x3.Float()) > math.MaxFloat32)"),
-      ("Int,Int8,Int16,Int32,Int64", "Float32,Float64", "x4 = -math.Ldexp(1, x5-1) <= x3.Float() && x3.Float() < math.Ldexp(1, x5-1)"),
-      ("Int,Int8,Int16,Int32,Int64", "Int,Int8,Int16,Int32,Int64", "x4 = x3.Int()>>(x5-1) == 0 || x3.Int()>>(x5-1) == -1"),
-      ("Int,Int8,Int16,Int32,Int64", "Uint,Uint8,Uint16,Uint32,Uint64", "x4 = x3.Uint()>>(x5-1) == 0"),
-      ("Uint,Uint8,Uint16,Uint32,Uint64", "Float32,Float64", "x4 = x3.Float() < math.Ldexp(1, x6)"),
-      ("Uint,Uint8,Uint16,Uint32,Uint64", "Int,Int8,Int16,Int32,Int64", "x4 = x3.Int() < 0 || x6 == 64 || x3.Int()>>x6 == 0"),
-      ("Uint,Uint8,Uint16,Uint32,Uint64", "Uint,Uint8,Uint16,Uint32,Uint64", "x4 = x6 == 64 || x3.Uint()>>x6 == 0")] ∧
-    Gen.Config.numberRangeRefuses = "!x4" ∧
+      ("Float32", "Float32,Float64", "math.IsInf(reflect.ValueOf(x2).Float(), 0) || !(math.Abs(reflect.ValueOf(x2).Float()) > math.MaxFloat32)"),
+      ("Int,Int8,Int16,Int32,Int64", "Float32,Float64", "-math.Ldexp(1, kindBits(x1)-1) <= reflect.ValueOf(x2).Float() && reflect.ValueOf(x2).Float() < math.Ldexp(1, kindBits(x1)-1)"),
+      ("Int,Int8,Int16,Int32,Int64", "Int,Int8,Int16,Int32,Int64", "reflect.ValueOf(x2).Int()>>(kindBits(x1)-1) == 0 || reflect.ValueOf(x2).Int()>>(kindBits(x1)-1) == -1"),
+      ("Int,Int8,Int16,Int32,Int64", "Uint,Uint8,Uint16,Uint32,Uint64", "reflect.ValueOf(x2).Uint()>>(kindBits(x1)-1) == 0"),
+      ("Uint,Uint8,Uint16,Uint32,Uint64", "Float32,Float64", "reflect.ValueOf(x2).Float() < math.Ldexp(1, kindBits(x1))"),
+      ("Uint,Uint8,Uint16,Uint32,Uint64", "Int,Int8,Int16,Int32,Int64", "reflect.ValueOf(x2).Int() < 0 || kindBits(x1) == 64 || reflect.ValueOf(x2).Int()>>kindBits(x1) == 0"),
+      ("Uint,Uint8,Uint16,Uint32,Uint64", "Uint,Uint8,Uint16,Uint32,Uint64", "kindBits(x1) == 64 || reflect.ValueOf(x2).Uint()>>kindBits(x1) == 0")] ∧
+    Gen.Config.numberRangeRefuses = "!VERDICT" ∧
     Gen.Config.kindBitsTable = [("Int16,Uint16", "16"), ("Int32,Uint32", "32"), ("Int64,Uint64", "64"), ("Int8,Uint8", "8")] ∧
     Gen.Config.kindBitsDefault = "strconv.IntSize" := ⟨rfl, rfl, rfl, rfl⟩
 
